@@ -36,8 +36,6 @@ def harnesses(tier):
                           ["yash_arith::eval::eval", "yash_arith::eval::apply_binary", "yash_arith::eval::into_value"],
                           "unevaluated operands are not evaluated (raise nothing); the evaluated one is; && || yield 0/1",
                           timeout=900, mod=M))
-    hs += [
-    ]
     MA = "ast::verif_c03_ast"
     T = ["yash_arith::ast::Operator::precedence", "yash_arith::ast::Operator::as_binary", "yash_arith::ast::Operator::as_prefix",
          "yash_arith::ast::Operator::as_postfix"]
